@@ -40,6 +40,7 @@ class Contract:
         self.old_names = kw.pop("old_names", {})
         self.notes = kw.pop("notes", "")
         self.options = kw.pop("options", {})
+        self.ghost_results = {k: parse_ty(v) for k, v in kw.pop("ghost_results", {}).items()}
         self.axioms = list(kw.pop("axioms", []))
         if kw:
             raise TypeError("unknown contract keys %s" % list(kw))
